@@ -85,6 +85,7 @@ KINDS = {
     "named_u": "union {{ uint32 {n}a; uint8 {n}b; }} {n};",
     "b16_full": "uint16 {n}a:3; uint16 {n}b:13;",
     "b8_part": "uint8 {n}a:2; uint8 {n}b:3;",
+    "b16_part": "uint16 {n}a:4; uint16 {n}b:5;",
     "b32_sw8": "uint32 {n}a:4; uint8 {n}b:4;",
     "b16_3": "uint16 {n}a:5; uint16 {n}b:5; uint16 {n}c:6;",
     "bi8": "int8 {n}a:4; int8 {n}b:4;",
